@@ -1237,12 +1237,14 @@ def compile_real(target, src, level):
 
 def run_real(p, target, name, level, stats, want_path=True):
     from vf.core import cpu_limit, CpuTimeout, exc_key
-    src = dict(real_sources())[name]
     w = {"kind": "real", "target": target, "name": name, "level": level}
     out = []
     try:
         with cpu_limit(CPU_REAL):
-            res, recs = compile_real(target, src, level)
+            if level == "ir":
+                res, recs = compile_ir(target, name)
+            else:
+                res, recs = compile_real(target, dict(real_sources())[name], level)
     except CpuTimeout:
         p.count("real_cpu_timeouts")
         p.collect("real_timeouts", "%s/%s/O%s" % (target, name, level))
@@ -1263,6 +1265,144 @@ def run_real(p, target, name, level, stats, want_path=True):
         p.count("frames_" + target.replace(":", "_"))
         judge(p, m, dict(w, frame=rec.frame.name), stats, out, want_path)
     return out
+
+
+# ---- IR-level register-pressure modules (reach targets / value types the C front end cannot: avr, stm8, m68k; 8/16-bit values)
+
+IR_OPS = ["+", "-", "^", "|", "&"]
+
+
+def ir_case_names(types):
+    """names of the IR pressure cases for a target that supports the integer value types `types`"""
+    names = []
+    for ty in types:
+        for n in (6, 12):
+            for variant in ("plain", "call", "loop"):
+                names.append("press/%s/%d/%s" % (ty, n, variant))
+    for a in types:
+        for b in types:
+            if a != b:
+                names.append("mixed/%s/%s/5/plain" % (a, b))
+                names.append("mixed/%s/%s/5/call" % (a, b))
+    return names
+
+
+_OPS_CACHE = {}
+
+
+def usable_ops(target, ty):
+    """the operators of IR_OPS for which the target can select `ty` binops at all (probed with one-instruction functions,
+    recording off); a deterministic function of the tree under test"""
+    key = (target, ty)
+    if key not in _OPS_CACHE:
+        import contextlib
+        from ppci.api import get_arch, ir_to_object
+        from vf.gen import irgen
+        ok = []
+        for op in IR_OPS:
+            d = {"name": "m", "functions": [{"name": "f", "ret": ty, "params": [ty, ty], "blocks": [[["bin", op, "p0", "p1", ty], ["ret", "%0"]]]}]}
+            try:
+                with contextlib.redirect_stdout(io.StringIO()), contextlib.redirect_stderr(io.StringIO()):
+                    ir_to_object([irgen.build(d)], get_arch(target))
+                ok.append(op)
+            except Exception:  # noqa
+                pass
+        _OPS_CACHE[key] = ok
+    return _OPS_CACHE[key]
+
+
+def ir_case(name, target=None):
+    """description (vf/gen/irgen.py format) of one IR pressure case"""
+    parts = name.split("/")
+    body = []
+    nv = [0]
+
+    def emit(ins):
+        body.append(ins)
+        nv[0] += 1
+        return "%%%d" % (nv[0] - 1)
+
+    def values(ty, n, x, y):
+        vs = []
+        for k in range(n):
+            a = x if k < 3 else vs[k - 3]
+            b = y if k % 2 == 0 else x
+            ops = (usable_ops(target, ty) if target else IR_OPS) or IR_OPS
+            vs.append(emit(["bin", ops[k % len(ops)], a, b, ty]))
+        return vs
+
+    def fold(ty, vs):
+        acc = vs[0]
+        for k, v in enumerate(vs[1:]):
+            ops = (usable_ops(target, ty) if target else IR_OPS) or IR_OPS
+            acc = emit(["bin", ops[(k + 1) % len(ops)], acc, v, ty])
+        return acc
+
+    if parts[0] == "press":
+        ty, n, variant = parts[1], int(parts[2]), parts[3]
+        ext = [["ext", [ty], ty]]
+        if variant == "loop":
+            # b0: define n values; b1: loop keeping them live, calling ext each round; b2: fold
+            vs = values(ty, n, "p0", "p1")
+            b0 = body + [["jmp", 1]]
+            body = []
+            i = emit(["phi", ty, None])
+            acc = emit(["phi", ty, None])
+            c = emit(["call", "@ext", [acc], ty])
+            acc2 = emit(["bin", "+", c, vs[0], ty])
+            acc3 = emit(["bin", "^", acc2, vs[n - 1], ty])
+            i2 = emit(["bin", "-", i, vs[1], ty])
+            b1 = body + [["cjmp", i2, "==", "p1", 2, 1]]
+            b1[0][2] = [[0, "p0"], [1, i2]]
+            b1[1][2] = [[0, "p1"], [1, acc3]]
+            body = []
+            r = fold(ty, vs + [acc3])
+            b2 = body + [["ret", r]]
+            blocks = [b0, b1, b2]
+        else:
+            vs = values(ty, n, "p0", "p1")
+            if variant == "call":
+                vs.append(emit(["call", "@ext", [vs[0]], ty]))
+            r = fold(ty, vs)
+            blocks = [body + [["ret", r]]]
+        return {"name": "m", "externals": ext, "functions": [{"name": "f", "ret": ty, "params": [ty, ty], "blocks": blocks}]}
+    ta, tb, n, variant = parts[1], parts[2], int(parts[3]), parts[4]
+    ext = [["ext", [ta], ta]]
+    va = values(ta, n, "p0", "p0")
+    vb = values(tb, n, "p1", "p1")
+    cross = [emit(["cast", tb, va[0]]), emit(["cast", tb, va[1]])]
+    back = [emit(["cast", ta, vb[0]]), emit(["cast", ta, vb[1]])]
+    if variant == "call":
+        va.append(emit(["call", "@ext", [va[2]], ta]))
+    ra = fold(ta, va + back)
+    rb = fold(tb, vb + cross)
+    r = emit(["bin", "+", ra, emit(["cast", ta, rb]), ta])
+    return {"name": "m", "externals": ext, "functions": [{"name": "f", "ret": ta, "params": [ta, tb], "blocks": [body + [["ret", r]]]}]}
+
+
+def target_int_types(target):
+    from ppci import ir
+    from ppci.api import get_arch
+    from vf.gen import irgen
+    arch = get_arch(target)
+    out = []
+    for name in irgen.INT_TYPES:
+        ty = ir.get_ty(name)
+        if ty in arch.info.value_classes and ty in arch.info.type_infos:
+            out.append(name)
+    return out
+
+
+def compile_ir(target, name):
+    from ppci.api import get_arch, ir_to_object
+    from vf.gen import irgen
+
+    def go():
+        import contextlib
+        m = irgen.build(ir_case(name, target))
+        with contextlib.redirect_stdout(io.StringIO()), contextlib.redirect_stderr(io.StringIO()):
+            return ir_to_object([m], get_arch(target))
+    return record(go)
 
 
 def real_worker(p, shard):
@@ -1302,6 +1442,8 @@ def run(ctx):
     levels = [0, 2]
     targets = REAL_TARGETS
     real_items = [(t, n, lv) for n in srcs for t in targets for lv in levels]
+    for t in targets:
+        real_items += [(t, n, "ir") for n in ir_case_names(target_int_types(t))]
     ctx.note("real_compilations", len(real_items))
     ctx.pmap(real_worker, real_items, nshards=min(len(real_items), 256))
     ctx.states = ctx.counters.get("k4_states", 0)
